@@ -70,6 +70,8 @@ type History struct {
 
 	// c03 (envoy flavour): hold back the events of one step while the next one is pushed
 	Lag *LagSpec `json:"lag,omitempty"`
+	// c03 (envoy flavour): at the end, compare the delta client's endpoints with a client connected then (c03.go freshEndpoints)
+	FreshEDS bool `json:"fresh_eds,omitempty"`
 
 	// c05
 	Cut *CutSpec `json:"cut,omitempty"`
